@@ -174,6 +174,21 @@ def multigoto_bodies():
                 yield list(combo) + [("label", "a")] + tail
 
 
+def skip_then_noise_bodies():
+    """A conditional goto that may skip a declaration, the label, and then every single scope-opening statement at every
+    position (also inside a block holding the use) before a use of the variable: the use stays illegal whatever was
+    opened and closed in between."""
+    ifgoto = ("if", cond_true(), ("goto", "a"), None)
+    heads = [[ifgoto, V("v", 1)], [ifgoto, V("v", 1), U("v")], [V("w", 2), ifgoto, V("v", 1)], [ifgoto, ("block", [V("w", 2)]), V("v", 1)]]
+    tails = [[U("v")], [("block", [U("v")])], [("block", [("block", [U("v")])])], [U("w"), U("v")], []]
+    for h in heads:
+        for t in tails:
+            base = h + [("label", "a")] + t
+            yield base
+            for noisy in gen_scope.all_single_noise(base):
+                yield noisy
+
+
 def run_case(case):
     kind = case[0]
     out = []
@@ -197,6 +212,12 @@ def run_case(case):
                 res2 = check_body(noisy, variant)
                 res2.setdefault("cov", {})["noise_variants"] = 1
                 out.append(res2)
+            if size >= 2 and (i // n) % 16 == 5:
+                # ... and, for every 16th body, with each kind of such a statement at each position
+                for noisy in gen_scope.all_single_noise(list(b)):
+                    res3 = check_body(noisy, variant)
+                    res3.setdefault("cov", {})["systematic_noise_variants"] = 1
+                    out.append(res3)
             if i % 1009 == 1 and res["verdict"] == HELD:
                 res["sample"] = {"body": gen_prog.to_source(make_program(b, variant)[0]),
                                  "model": sorted(models.variable_model([("var", "x", I32, lit(0))] + b, ret_expr=X))}
@@ -211,6 +232,17 @@ def run_case(case):
                 continue
             res = check_body(body, 0)
             res.setdefault("cov", {})["multigoto_bodies"] = 1
+            out.append(res)
+        return out
+    if kind == "skipnoise":
+        _, idx, n = case
+        for i, body in enumerate(skip_then_noise_bodies()):
+            if i % n != idx:
+                continue
+            if models.goto_model(body, True):
+                continue
+            res = check_body(body, 0)
+            res.setdefault("cov", {})["skip_then_noise_bodies"] = 1
             out.append(res)
         return out
     if kind == "random":
@@ -257,6 +289,7 @@ def main(tier, seed, replay=None):
             for idx in range(shards):
                 cases.append(("enum", which, size, 3, idx, shards))
     cases += [("multigoto", idx, n) for idx in range(n)]
+    cases += [("skipnoise", idx, n) for idx in range(n)]
     nrand = 1500 if tier == "quick" else 60000
     cases += [("random", seed, i) for i in range(nrand)]
     for r in common.run_sharded(run_case, cases):
